@@ -290,6 +290,7 @@ pub fn check_pipe(p: &Pipe) -> (Vec<Violation>, RunStats) {
             Ok(o) => {
                 fnv(&mut digest, format!("{:?}{:?}{:?}", o.hint, o.drained, o.pulled).as_bytes());
                 st.hints_checked += 1;
+                st.hit("oracle_H1_hint_vs_drain");
                 let got = o.drained.len();
                 let bad = if o.plain {
                     // an untrusted iterator may announce a loose bound; nothing to hold it to
@@ -331,6 +332,9 @@ pub fn check_pipe(p: &Pipe) -> (Vec<Violation>, RunStats) {
                 if cut > 0 && !bad {
                     if let Op::Wrap(stg) = &p.ops[cut - 1] {
                         let before = probes[cut - 1].drained.len();
+                        if stg.length_preserving() {
+                            st.hit("oracle_H3_length_preserved");
+                        }
                         if stg.length_preserving() && before != got && !probes[cut - 1].capped {
                             viol.push(Violation {
                                 props: vec!["C09"],
@@ -586,6 +590,9 @@ fn layout_probe(st: &mut RunStats, b: &Backend) {
         Backend::ArcVec | Backend::ArcDeque { .. } => st.hit("layout_arc"),
         Backend::Polars { chunks } if !chunks.is_empty() => st.hit("layout_polars_multichunk"),
         Backend::OptOfVec | Backend::OptOfArray1 => st.hit("layout_optiter_view"),
+        Backend::SliceRef | Backend::SliceMut => st.hit("layout_slice_ref_or_mut"),
+        Backend::FixedArray => st.hit("layout_fixed_array"),
+        Backend::NdViewMut => st.hit("layout_ndarray_view_mut"),
         _ => {},
     }
 }
@@ -653,6 +660,13 @@ fn check_sink(
     c: &CommitOut,
 ) {
     let stage = sink.kind();
+    st.hit(match sink {
+        Sink::Write { .. } => "oracle_K4_buffer_write",
+        Sink::OptCollect(_) => "oracle_K3_option_collect",
+        s if s.fallible() => "oracle_K2_first_error",
+        s if s.trusts_hint() => "oracle_H2_trusted_collect",
+        _ => "oracle_K1_plain_collect",
+    });
     let both: Vec<&'static str> = if sink.trusts_hint() { vec!["C09", "C19"] } else { vec!["C19"] };
 
     // internal streams seen by the simulator-owned container
